@@ -73,6 +73,10 @@ func LoadWorld(repo string, overlay map[string][]byte, tier string, goos string)
 	}
 	markNewTypes(w)
 	// helpers that did not exist on the reviewed tree are inlined back into their callers
+	ifaceAliases = nil
+	if w.HasNewTypes {
+		ifaceAliases = singleImplNewIfaces(w)
+	}
 	ov2, notes := normalizeNewHelpers(w.Fset, w.Mod, reviewed)
 	if len(ov2) == 0 {
 		w.Notes = notes
@@ -105,6 +109,32 @@ func LoadWorld(repo string, overlay map[string][]byte, tier string, goos string)
 	w2.Notes = notes
 	w2.Normalized = true
 	markNewTypes(w2)
+	// a second round: what the first one uncovered (a call through a function table turned into
+	// direct calls of new helpers, a helper that called another one) is normalised as well
+	if os.Getenv("RVET_ONE_ROUND") == "" {
+		ifaceAliases = nil
+		ov3, notes3 := normalizeNewHelpers(w2.Fset, w2.Mod, reviewed)
+		if len(ov3) > 0 {
+			merged3 := map[string][]byte{}
+			for k, v := range merged {
+				merged3[k] = v
+			}
+			for k, v := range ov3 {
+				merged3[k] = v
+			}
+			if w3, err3 := loadWorld(repo, merged3, tier, goos, true); err3 == nil {
+				w3.Notes = append(notes, notes3...)
+				w3.Normalized = true
+				markNewTypes(w3)
+				if d := os.Getenv("RVET_DUMP_NORMALIZED"); d != "" {
+					for k, v := range ov3 {
+						_ = os.WriteFile(filepath.Join(d, strings.ReplaceAll(strings.TrimPrefix(k, repo+"/"), "/", "__")), v, 0o644)
+					}
+				}
+				return w3, nil
+			}
+		}
+	}
 	return w2, nil
 }
 
